@@ -11,7 +11,8 @@ index, returned index, merged @charset object, @media/@page kind tests, detachin
 at any depth): every theorem that used to carry a region guard (`…_partial`) is now stated and proved in full.
 The operations: insertRule (any index, object or text, `inOrder` or not), add, insertRule(CSSRuleList), deleteRule,
 encoding, cssText of the sheet, namespaces[p] = u, del namespaces[p], and insertRule / insertRule(CSSRuleList) /
-deleteRule / cssText on the nested list at any path; raise or log-only mode; accepted, refused or interrupted.
+deleteRule / cssText (complete texts, and texts with trailing content or an unclosed block) on the nested list at any
+path; raise or log-only mode; accepted, refused or interrupted.
 -/
 namespace CssVerif.C09
 open CssVerif.SheetEdit CssVerif.SheetEdit.Wit
@@ -36,6 +37,7 @@ theorem step_order (st : St) (op : Op) (h : TopOK st.rules) : TopOK (step st op)
   | nInsertList path specs i => unfold TopOK; rw [step, (nInsertList_view st path specs i).1]; exact h
   | nDelete path i => unfold TopOK; rw [step, nDelete_kinds]; exact h
   | nSetText path kids => unfold TopOK; rw [step, nSetText_kinds]; exact h
+  | nSetBroken path => rw [step, nSetBroken_state]; exact h
   | setMode b => exact h
 
 /-- regression witnesses of the two order findings (fixed): `/*c*/ @import "x";` then `add(@variables)`, and
@@ -74,6 +76,7 @@ theorem step_valid (st : St) (op : Op) (hv : Valid st) (hs : OpOK op) : Valid (s
   | nInsertList path specs i => exact nInsertList_inv st path specs i hinv hs
   | nDelete path i => exact nDelete_inv st path i hinv
   | nSetText path kids => exact nSetText_inv st path kids hinv
+  | nSetBroken path => rw [step, nSetBroken_state]; exact hinv
   | setMode b => exact ⟨hinv.kids, hinv.links, hinv.gone, hinv.ids⟩
 
 /-- regression witnesses of the findings about dropped objects and nested kinds (all fixed): the operations that
@@ -148,6 +151,7 @@ theorem step_tree (st : St) (op : Op) (hv : ValidTree st) (hs : OpOK op) : Valid
   | nInsertList path specs i => exact nInsertList_live st path specs i hl hs
   | nDelete path i => exact nDelete_live st path i hl
   | nSetText path kids => exact nSetText_live st path kids hl
+  | nSetBroken path => rw [step, nSetBroken_state]; exact hl
   | setMode b => exact ⟨hl.kids, hl.links, hl.ids⟩
 
 theorem reachable_tree (st : St) (ops : List Op) (hv : ValidTree st) (hc : AllOK ops) : ValidTree (run st ops) := by
@@ -247,6 +251,7 @@ theorem step_nsClean (st : St) (op : Op) (h : NsClean st.rules) : NsClean (step 
   | nInsertList path specs i => exact nsClean_of_pairs h (nInsertList_view st path specs i).2
   | nDelete path i => exact nsClean_of_pairs h (nDelete_nsPairs st path i)
   | nSetText path kids => exact nsClean_of_pairs h (nSetText_nsPairs st path kids)
+  | nSetBroken path => rw [step, nSetBroken_state]; exact h
   | setMode b => exact h
 
 theorem reachable_nsClean (st : St) (ops : List Op) (h : NsClean st.rules) : NsClean (run st ops).rules := by
